@@ -223,7 +223,9 @@ def emit(n: Node, ind: str, cx: Ctx) -> list:
     if k == 'Task':
         if cx.in_async:
             c = cx.fresh('co')
+            lp, cx.in_loop = cx.in_loop, 0
             body = emit_block(n.kids[0], i2, cx)
+            cx.in_loop = lp
             return [f'{ind}async def {c}():', f'{i2}await asyncio.sleep(0)'] + body + [f'{i2}return 5',
                                                                                        f'{ind}r = await asyncio.create_task({c}())']
         cx.need.add('asyncio')
@@ -242,8 +244,10 @@ def emit(n: Node, ind: str, cx: Ctx) -> list:
     if k == 'Tasks2':
         if cx.in_async:
             c1, c2 = cx.fresh('co'), cx.fresh('co')
+            lp, cx.in_loop = cx.in_loop, 0
             b1 = emit_block(n.kids[0], i2, cx)
             b2 = emit_block(n.kids[1], i2, cx)
+            cx.in_loop = lp
             return ([f'{ind}async def {c1}():'] + b1 + [f'{i2}await asyncio.sleep(0)', f'{ind}async def {c2}():', f'{i2}await asyncio.sleep(0)']
                     + b2 + [f'{ind}r = await asyncio.gather({c1}(), {c2}())'])
         cx.need.add('asyncio')
@@ -265,7 +269,9 @@ def emit(n: Node, ind: str, cx: Ctx) -> list:
         # a task whose first frame is library code (the coroutine asyncio.wait_for) awaiting the user's coroutine
         u = cx.fresh('co')
         if cx.in_async:
+            lp, cx.in_loop = cx.in_loop, 0
             body = emit_block(n.kids[0], i2, cx)
+            cx.in_loop = lp
             return ([f'{ind}async def {u}():'] + body + [f'{i2}await asyncio.sleep(0)', f'{i2}b = 1', f'{i2}await asyncio.sleep(0)', f'{i2}return 3',
                                                          f'{ind}r = await asyncio.create_task(asyncio.wait_for({u}(), 5))'])
         cx.need.add('asyncio')
@@ -351,9 +357,29 @@ def _stmts(size: int, kinds: list, depth: int) -> Iterator[Node]:
                             yield Node(k, [b1, b2])
 
 
+SKIPPED = {'invalid_programs': 0}          # programs rejected at generation time (reported in the evidence)
+
+
+def valid(block: list) -> bool:
+    """the program compiles in every statement form: as a module (printing and non-printing variant) and as the body of the
+    function the callable form wraps it in"""
+    try:
+        for prints in (True, False):
+            compile(render(block, prints, False), '<progen>', 'exec', dont_inherit=True)
+        body = '\n'.join('    ' + l for l in render(block, True, True).splitlines()) or '    pass'
+        compile('def entry():\n' + body + '\n', '<progen>', 'exec', dont_inherit=True)
+        return True
+    except SyntaxError:
+        return False
+
+
 def enumerate_programs(max_size: int, kinds: list | None = None, depth: int = 3) -> Iterator[list]:
     for n in range(1, max_size + 1):
-        yield from _blocks(n, kinds or ENUM_KINDS, depth)
+        for b in _blocks(n, kinds or ENUM_KINDS, depth):
+            if valid(b):
+                yield b
+            else:
+                SKIPPED['invalid_programs'] += 1
 
 
 # ---------------------------------------------------------------- random programs
@@ -381,7 +407,12 @@ def random_block(rng, size: int, depth: int, kinds: list) -> list:
 
 
 def random_program(rng, size: int, kinds: list | None = None) -> list:
-    return random_block(rng, size, 3, kinds or list(ARITY))
+    for _ in range(50):
+        b = random_block(rng, size, 3, kinds or list(ARITY))
+        if valid(b):
+            return b
+        SKIPPED['invalid_programs'] += 1
+    return [Node('Assign')]
 
 
 def size_of(block: list) -> int:
